@@ -75,6 +75,9 @@ func (s Shape) String() string {
 
 var ErrInvalidType = errors.New("invalid type")
 
+// ErrInvalidShape is returned when the shape of a tensor does not match its data.
+var ErrInvalidShape = errors.New("invalid shape")
+
 // Dim is a dimension.
 type Dim struct {
 	IsDynamic bool
@@ -210,7 +213,54 @@ func TensorFromProto(tp *TensorProto) (tensor.Tensor, error) {
 		return nil, err
 	}
 
-	return tensor.New(tensor.WithShape(getDims(tp)...), tensor.WithBacking(values)), nil
+	// The number of decoded values must match the declared shape, otherwise
+	// the tensor cannot be constructed (tensor.New panics on a mismatch).
+	dims := getDims(tp)
+	nElements := 1
+
+	for _, dim := range dims {
+		if dim < 1 {
+			return nil, ErrInvalidShape
+		}
+
+		nElements *= dim
+	}
+
+	if nValues(values) != nElements {
+		return nil, ErrInvalidShape
+	}
+
+	return tensor.New(tensor.WithShape(dims...), tensor.WithBacking(values)), nil
+}
+
+// nValues returns the number of values in a list of values as decoded by TensorFromProto.
+func nValues(values interface{}) int {
+	switch v := values.(type) {
+	case []float32:
+		return len(v)
+	case []float64:
+		return len(v)
+	case []int8:
+		return len(v)
+	case []int16:
+		return len(v)
+	case []int32:
+		return len(v)
+	case []int64:
+		return len(v)
+	case []uint8:
+		return len(v)
+	case []uint16:
+		return len(v)
+	case []uint32:
+		return len(v)
+	case []uint64:
+		return len(v)
+	case []bool:
+		return len(v)
+	default:
+		return -1
+	}
 }
 
 func getFloatData(tp *TensorProto) ([]float32, error) {
